@@ -17,6 +17,7 @@ func init() {
 	register(&PropDef{ID: "C20", Title: "Config and translation maps survive flattening, JSON and loading unchanged", Rules: rulesC20,
 		Explanation: "Decided (structural necessary conditions, packages plainmap, fsi18loader, i18mem): R1 the constant used to join keys when flattening (recursive map and JSON), to split them when rebuilding and to find the nesting point when emitting JSON is one and the same one-character string; R2 in the JSON object walk a string leaf reaches the result map only as the result of an unescaping function (jsonparser.ParseString/Unescape, strconv.Unquote, encoding/json) on its nil-error edge — never the raw bytes; number leaves are stored raw; R3 the emitter's escaper delegates to encoding/json (not to Go-syntax quoting), and every non-constant piece of the emitted text is either an escaped string, a recursive emission, the text so far or indentation; R4 the translation table is only touched under its RW mutex, and it is never replaced wholesale from a copy taken in an earlier critical section (read-copy-publish must be one hold); R5 the loader's callback returns read and parse errors and hands the parsed map to Set; Load runs, waits, then returns the loop's error list; R6 the leaf switch recurses on objects and stores exactly string and number leaves. " +
 			"R7 the walker behind fsi18loader.Load looks at entry names only to recognise '.' and '..' and leaves a listing loop early only with a non-nil error (no translation file is skipped by name). " +
+			"Added in round 6: R3 also judges pieces written with WriteString into a strings.Builder; R5 follows the store method when it is passed down as a bound method value (i18.Set / i18.SetDefault); R8 a traversal mark set by the flatten worker is removed again on every path (an ever-growing visited set rejects a finite map that reaches one sub-map under two keys). " +
 			"NOT decided: that flatten/rebuild and write/read are mutually inverse for all maps (round-trip equalities); jsonparser's and encoding/json's own correctness.",
 	})
 }
@@ -333,7 +334,7 @@ func rulesC20(c *Ctx) {
 				okP := allOrigins(os, func(o Origin) bool {
 					switch o.Kind {
 					case "call":
-						return strings.Contains(o.Name, ".formatStringJSON#")
+						return strings.Contains(o.Name, ".formatStringJSON#") || strings.Contains(o.Name, "."+name+"#")
 					case "param":
 						return o.Name == "spaces" || o.Name == "sep"
 					case "const":
@@ -350,6 +351,68 @@ func rulesC20(c *Ctx) {
 		}
 	}
 	c.Floor("R3", n3, 4)
+
+	// ---- R8 flattening is total on finite maps: a "seen" mark set on the way down is removed on the way up ----
+	// (HEAD's worker creates no error of its own; a cycle guard is fine only as an on-the-path set: marks that
+	// are never removed make a sub-map that is referenced under two keys look like a cycle)
+	if froot := c.P.Func(pmPkg, "", "RecursiveMapToPlainMap"); froot == nil {
+		c.Bad("R8", "plainmap.RecursiveMapToPlainMap", 0, "anchor not found")
+	} else {
+		n8 := 0
+		var workers []*ssa.Function
+		for _, g := range append([]*ssa.Function{froot}, reachableSamePkg(froot, 2)...) {
+			workers = append(workers, withClosures(g)...)
+		}
+		for _, fw := range workers {
+			fw := fw
+			eachInstr(fw, func(_ *ssa.BasicBlock, _ int, in ssa.Instruction) {
+				mu, ok := in.(*ssa.MapUpdate)
+				if !ok {
+					return
+				}
+				if _, isParam := mu.Map.(*ssa.Parameter); !isParam {
+					return
+				}
+				if b, isB := constBool(mu.Value); !isB || !b {
+					return
+				}
+				n8++
+				unmark := func(x ssa.Instruction) bool {
+					switch y := x.(type) {
+					case *ssa.Call:
+						if bi, ok := y.Call.Value.(*ssa.Builtin); ok && bi.Name() == "delete" && len(y.Call.Args) == 2 && y.Call.Args[0] == mu.Map && sameValue(resolve(y.Call.Args[1]), resolve(mu.Key)) {
+							return true
+						}
+					case *ssa.MapUpdate:
+						if y.Map == mu.Map && y != mu && sameValue(resolve(y.Key), resolve(mu.Key)) {
+							if b, isB := constBool(y.Value); isB && !b {
+								return true
+							}
+						}
+					case *ssa.Defer:
+						if mc, ok := y.Call.Value.(*ssa.MakeClosure); ok {
+							if fn, ok := mc.Fn.(*ssa.Function); ok {
+								found := false
+								eachInstr(fn, func(_ *ssa.BasicBlock, _ int, z ssa.Instruction) {
+									if zc, ok := z.(*ssa.Call); ok {
+										if bi, ok := zc.Call.Value.(*ssa.Builtin); ok && bi.Name() == "delete" {
+											found = true
+										}
+									}
+								})
+								return found
+							}
+						}
+					}
+					return false
+				}
+				bad := MustPass(fw, mu, unmark)
+				c.Check(len(bad) == 0, "R8", "mark set by the flatten worker is removed on the way up", mu.Pos(), "delete(mark) on every path after the mark was set",
+					"the worker marks the maps it has entered and never removes the mark — a finite map that reaches one sub-map under two keys is rejected as cyclic: flatten is no longer defined on every nested map")
+			})
+		}
+		c.Note("R8: %d traversal marks in the flatten worker", n8)
+	}
 
 	// ---- R4 translation store --------------------------------------------------------------------------
 	memT := c.P.Named("i18n/i18mem", "I18Mem")
